@@ -974,9 +974,9 @@ func runC09(c *fw.Ctx) {
 	if c.Replaying() {
 		reps = 300 // a schedule-dependent witness needs many attempts
 	}
-	nlin := c.Pick(1300, 32000)
+	nlin := c.Pick(1300, 6000)
 	if c.Flavour == "race" {
-		nlin = c.Pick(500, 8000)
+		nlin = c.Pick(500, 2000)
 	}
 	for i := 0; i < nlin; i++ {
 		if !c.Begin(i) {
@@ -993,7 +993,7 @@ func runC09(c *fw.Ctx) {
 			}
 		}
 	}
-	nclear := c.Pick(25, 400)
+	nclear := c.Pick(25, 80)
 	for i := 0; i < nclear; i++ {
 		if !c.Begin(1<<21 + i) {
 			continue
@@ -1009,7 +1009,7 @@ func runC09(c *fw.Ctx) {
 			}
 		}
 	}
-	ninv := c.Pick(12, 400)
+	ninv := c.Pick(12, 60)
 	for i := 0; i < ninv; i++ {
 		if !c.Begin(1<<22 + i) {
 			continue
@@ -1025,7 +1025,7 @@ func runC09(c *fw.Ctx) {
 			}
 		}
 	}
-	for i := 0; i < c.Pick(6, 24); i++ {
+	for i := 0; i < c.Pick(6, 12); i++ {
 		if !c.Begin(1<<23 + i) {
 			continue
 		}
@@ -1036,7 +1036,7 @@ func runC09(c *fw.Ctx) {
 		}
 	}
 	base := 1 << 20
-	nstress := c.Pick(40, 600)
+	nstress := c.Pick(40, 120)
 	for i := 0; i < nstress; i++ {
 		if !c.Begin(base + i) {
 			continue
